@@ -15,10 +15,12 @@ package main
 // 2 complete bipartite K_{a,b}; 3 complete tripartite K_{a,b,c}; 4 saturation gadget (clique
 // core of a vertices, the first with c leaves, b vertices joined to the other core vertices,
 // one vertex z joined to those b vertices: z collects b neighbours of one colour); 5 clique K_a
-// with b leaves on every clique vertex; 6 disjoint union of K_{1,a}, K_b and an edge.
+// with b leaves on every clique vertex; 6 disjoint union of K_{1,a}, K_b and an edge; 7 K_a joined
+// to b disjoint non-edges (2^b maximal cliques of size a+b).
 
 import (
 	"fmt"
+	"runtime"
 	"sort"
 
 	"github.com/Tom-Johnston/mamba/graph"
@@ -134,6 +136,22 @@ func construct(fam, a, b, c int) *built {
 			}
 		}
 		return &built{g, a, a, a * b, 1 + a*b, -1, false}
+	case 7:
+		// K_a joined to b disjoint non-edges (complete multipartite with a parts of size 1 and b of
+		// size 2): 2^b maximal cliques, each K_a plus one end of every non-edge
+		if a < 0 || b < 1 || b > 12 || a+b < 2 {
+			return nil
+		}
+		n := a + 2*b
+		g := gx.New(n)
+		for i := 0; i < n; i++ {
+			for j := 0; j < i; j++ {
+				if !(i >= a && j >= a && (i-a)/2 == (j-a)/2) {
+					g.Add(i, j)
+				}
+			}
+		}
+		return &built{g, a + b, a + b, 2, 1 << uint(b), -1, b > 6}
 	case 6:
 		if a < 2 || b < 2 {
 			return nil
@@ -223,57 +241,76 @@ func observeConstructed(c gx.Case, t gx.Tok, viol *[]hx.OracleViolation) {
 			}
 		}
 		if bt.cliques >= 0 {
-			ch := make(chan []int)
-			go graph.AllMaximalCliques(g, ch)
-			seen := map[string]bool{}
-			cnt := 0
-			for cl := range ch {
-				cnt++
-				s := hx.SortedCopy(cl)
-				key := gx.JoinInts(s, ".")
-				if seen[key] {
-					fail("AllMaximalCliques", "clique %v reported twice", s)
+			// every channel capacity, fast and yielding receivers; the slices are kept as received
+			// and looked at only after the channel is closed
+			caps := []int{0, 1, 4, 64, 1024}
+			if bt.cliques > 300 {
+				caps = []int{0, 64}
+			}
+			for ci, capacity := range caps {
+				ch := make(chan []int, capacity)
+				go graph.AllMaximalCliques(g, ch)
+				var kept [][]int
+				var onReceipt []string
+				for cl := range ch {
+					if ci%2 == 1 {
+						runtime.Gosched()
+					}
+					kept = append(kept, cl)
+					onReceipt = append(onReceipt, gx.JoinInts(cl, "."))
 				}
-				seen[key] = true
-				ok := true
-				for i, x := range s {
-					if x < 0 || x >= n || (i > 0 && s[i-1] == x) {
-						ok = false
+				seen := map[string]bool{}
+				for i, cl := range kept {
+					if gx.JoinInts(cl, ".") != onReceipt[i] {
+						fail("AllMaximalCliques", "channel capacity %d: clique number %d read %s when received and reads %v after the channel was closed", capacity, i, onReceipt[i], cl)
 						break
 					}
-					for _, y := range s[:i] {
-						if !h.A[x][y] {
+					s := hx.SortedCopy(cl)
+					key := gx.JoinInts(s, ".")
+					if seen[key] {
+						fail("AllMaximalCliques", "channel capacity %d: clique %v reported twice", capacity, s)
+					}
+					seen[key] = true
+					ok := true
+					for i, x := range s {
+						if x < 0 || x >= n || (i > 0 && s[i-1] == x) {
 							ok = false
+							break
+						}
+						for _, y := range s[:i] {
+							if !h.A[x][y] {
+								ok = false
+							}
 						}
 					}
-				}
-				if !ok {
-					fail("AllMaximalCliques", "%v is not a clique", s)
-					continue
-				}
-				in := make([]bool, n)
-				for _, x := range s {
-					in[x] = true
-				}
-				for u := 0; u < n; u++ {
-					if in[u] {
+					if !ok {
+						fail("AllMaximalCliques", "channel capacity %d: %v is not a clique", capacity, s)
 						continue
 					}
-					all := true
+					in := make([]bool, n)
 					for _, x := range s {
-						if !h.A[x][u] {
-							all = false
+						in[x] = true
+					}
+					for u := 0; u < n; u++ {
+						if in[u] {
+							continue
+						}
+						all := true
+						for _, x := range s {
+							if !h.A[x][u] {
+								all = false
+								break
+							}
+						}
+						if all {
+							fail("AllMaximalCliques", "channel capacity %d: %v is not maximal: %d extends it", capacity, s, u)
 							break
 						}
 					}
-					if all {
-						fail("AllMaximalCliques", "%v is not maximal: %d extends it", s, u)
-						break
-					}
 				}
-			}
-			if cnt != bt.cliques {
-				fail("AllMaximalCliques", "%d cliques reported, the graph has %d maximal cliques", cnt, bt.cliques)
+				if len(kept) != bt.cliques {
+					fail("AllMaximalCliques", "channel capacity %d: %d cliques reported, the graph has %d maximal cliques", capacity, len(kept), bt.cliques)
+				}
 			}
 		}
 
